@@ -1015,3 +1015,74 @@ UNITS += [
          must_have=[r"postcondition"] + ([r"celer_expect"] if "EXPECT" in "" else []), checks=LEAF_CHECKS, note="PhysicsTrackView::%s on the real state layout (own EXPECT/ENSURE, the slot's field, every other slot untouched)" % nm)
     for nm in PHV_OPS
 ]
+
+
+# ---------------------------------------------------------------------------
+# MscStepLimitApplier / MscApplier: the per-slot "MSC used this step" record (msc_step().geom_path) is set or reset on EVERY step
+# ---------------------------------------------------------------------------
+MSLA = "src/celeritas/global/alongstep/detail/MscStepLimitApplier.hh"
+MSCA = "src/celeritas/global/alongstep/detail/MscApplier.hh"
+MSA_MODEL = """
+typedef struct { bool is_displaced; real_type true_path, geom_path, alpha; } MscStep;
+MscStep g_msc_step;            /* PhysicsStepView::msc_step(): the slot's MSC step record -- it persists from step to step */
+bool g_applicable; unsigned g_limit_calls, g_apply_calls;
+/* MH::is_applicable(track, step): any answer */
+static bool MH_is_applicable(CoreTrackView const* track, real_type step) { return g_applicable; }
+/* MH::limit_step (UrbanMsc::limit_step, contract c05_urban_msc_limit_step): 0 < geom_path <= true_path <= physics step; the step becomes the geometric path */
+void MH_limit_step(CoreTrackView const* track)
+__CPROVER_requires(VIEW_OK(track) && track->t->step_length > 0)
+__CPROVER_assigns(g_msc_step, g_limit_calls, track->t->step_length)
+__CPROVER_ensures(g_limit_calls == __CPROVER_old(g_limit_calls) + 1 && g_msc_step.geom_path > 0 && g_msc_step.geom_path <= g_msc_step.true_path && g_msc_step.true_path <= __CPROVER_old(track->t->step_length) && track->t->step_length == g_msc_step.geom_path)
+;
+/* MH::apply_step (UrbanMsc::apply_step, contract c05_urban_msc_apply_step): requires that limit_step ran in THIS step (its record describes this step) */
+void MH_apply_step(CoreTrackView const* track)
+__CPROVER_requires(VIEW_OK(track) && g_msc_step.geom_path > 0)
+__CPROVER_assigns(g_apply_calls, track->t->step_length)
+__CPROVER_ensures(g_apply_calls == __CPROVER_old(g_apply_calls) + 1)
+;
+"""
+MSA_RULES = [
+    Rule(r"msc\.is_applicable\(track, track\.make_sim_view\(\)\.step_length\(\)\)", "MH_is_applicable(track, track->t->step_length)", "*", note="MH member call -> stub (any answer)"),
+    Rule(r"msc\.limit_step\(track\);", "MH_limit_step(track);", "*", note="MH member call -> contract"),
+    Rule(r"msc\.apply_step\(track\);", "MH_apply_step(track);", "*", note="MH member call -> contract"),
+    Rule(r"auto step_view = track\.make_physics_step_view\(\);", "", "*", note="view handle (the msc_step record is the ghost g_msc_step)"),
+    Rule(r"step_view\.msc_step\(\)", "g_msc_step", "*", note="PhysicsStepView::msc_step()"),
+    Rule(r"track\.make_physics_step_view\(\)\.msc_step\(\)", "g_msc_step", "*", note="PhysicsStepView::msc_step()"),
+    Rule(r"track\.make_sim_view\(\)\.status\(\)", "track->t->status", "*", note="SimTrackView::status()"),
+    Rule(r"TrackStatus::(\w+)", r"TS_\1", "*", note="enum class value (bound)"),
+]
+
+
+def build_msc_appliers(ctx):
+    a = ctx.func(MSLA, r"^MscStepLimitApplier<MH>::operator\(\)\(CoreTrackView const& track\)", MSA_RULES, name="MscStepLimitApplier<MH>::operator()")
+    b = ctx.func(MSCA, r"^CELER_FUNCTION void MscApplier<MH>::operator\(\)\(CoreTrackView const& track\)", MSA_RULES, name="MscApplier<MH>::operator()")
+    return (VHDR + MSA_MODEL + """
+#define T0(f) __CPROVER_old(track->t->f)
+void MSL_call(CoreTrackView const* track)
+__CPROVER_requires(VIEW_OK(track) && track->t->step_length > 0 && g_limit_calls == 0)
+__CPROVER_assigns(g_msc_step, g_limit_calls, track->t->step_length)
+/* MSC applies: limited once, the record describes THIS step (0 < geom <= true <= physics step) */
+__CPROVER_ensures(g_applicable ==> (g_limit_calls == 1 && g_msc_step.geom_path > 0 && g_msc_step.true_path <= T0(step_length) && track->t->step_length == g_msc_step.geom_path))
+/* MSC does not apply: the record left by an EARLIER step of this slot is cleared, so that MscApplier cannot replay it; the step is untouched */
+__CPROVER_ensures(!g_applicable ==> (g_limit_calls == 0 && g_msc_step.geom_path == 0 && (track->t->step_length == T0(step_length) || __CPROVER_isnand(T0(step_length)))))
+{""" + a.body + """}
+void MSA_call(CoreTrackView const* track)
+__CPROVER_requires(VIEW_OK(track) && g_apply_calls == 0 && track->t->status >= 0 && track->t->status < 5)
+__CPROVER_assigns(g_apply_calls, track->t->step_length)
+/* the geometric -> true conversion and the scattering run exactly for alive tracks whose step was MSC-limited */
+__CPROVER_ensures(g_apply_calls == ((track->t->status == TS_alive && g_msc_step.geom_path > 0) ? 1 : 0))
+__CPROVER_ensures(g_apply_calls == 0 ==> (track->t->step_length == T0(step_length) || __CPROVER_isnand(T0(step_length))))
+{""" + b.body + """}
+void h_msl(void) { Track t; CoreTrackView v = {&t}; unsigned r; g_applicable = (r != 0); MSL_call(&v); VERIF_CANARY(); }
+void h_msa(void) { Track t; CoreTrackView v = {&t}; MSA_call(&v); VERIF_CANARY(); }
+""")
+
+
+UNITS += [
+    Unit("c05_msc_step_limit_applier", build_msc_appliers, "h_msl", enforce="MSL_call", replace=["MH_limit_step"], timeout=120, backend=["sat", "cvc5"],
+         must_have=[r"MSL_call.postcondition", r"celer_assert"], checks=LEAF_CHECKS, assumptions=["MH::limit_step by the contract enforced in c05_urban_msc_limit_step; is_applicable: any answer"],
+         note="MscStepLimitApplier: when MSC applies the step is limited once and the slot's MSC record describes this step; when it does not, the record of an earlier step is cleared and the step is untouched"),
+    Unit("c05_msc_applier", build_msc_appliers, "h_msa", enforce="MSA_call", replace=["MH_apply_step"], timeout=120, backend=["sat", "cvc5"],
+         must_have=[r"MSA_call.postcondition", r"MH_apply_step.precondition"], checks=LEAF_CHECKS, assumptions=["MH::apply_step by the contract enforced in c05_urban_msc_apply_step"],
+         note="MscApplier: apply_step runs exactly for alive tracks whose step was MSC-limited in this step"),
+]
